@@ -95,6 +95,10 @@ type c18World struct {
 	// state the one of the client state's own header? (an inconsistent pair is a governance input error the clients do
 	// not detect; the oracle's "valid header" is relative to a genuine trusted state)
 	consistent map[string]bool
+	// per installed TSS client: the TSS address it must have BY CONSTRUCTION (the proposal's, then the one of every
+	// accepted key-rotation header) — independent of what the store says
+	tssAddr map[string]string
+	self    string // this chain's own name
 }
 
 func c18RepoDir() string {
@@ -146,6 +150,7 @@ func newC18World(t *testing.T) *c18World {
 	w.addr["tssA"] = sdk.AccAddress(sha256.New().Sum([]byte("tssA"))[:20]).String()
 	w.addr["tssB"] = sdk.AccAddress(sha256.New().Sum([]byte("tssB"))[:20]).String()
 	w.addr["bad"] = "teleport1notanaddress"
+	c18Self = w.app.XIBCKeeper.ClientKeeper.GetChainName(w.chainA.GetContext())
 	w.reset()
 	return w
 }
@@ -167,6 +172,8 @@ func (w *c18World) reset() {
 	w.hist = nil
 	w.tmSnap = nil
 	w.consistent = map[string]bool{}
+	w.tssAddr = map[string]string{}
+	w.self = w.app.XIBCKeeper.ClientKeeper.GetChainName(w.ctx)
 }
 
 // ---- canonical text ------------------------------------------------------------------------------
@@ -440,6 +447,19 @@ func (w *c18World) realiseCS(desc string) exported.ClientState {
 		cb[0] ^= 0xff
 		h.Coinbase = cb
 		return w.bscState(h)
+	case "bsc!h0": // Validate() fails: header at height zero
+		h := w.bscGen.ToHeader()
+		h.Height.RevisionHeight = 0
+		return w.bscState(h)
+	case "eth!h0":
+		h := w.ethHdr[0].ToHeader()
+		h.Height.RevisionHeight = 0
+		return w.ethState(h, 4)
+	case "bsc!noval": // epoch header that carries no validator list (vanity + seal only): Initialize / UpgradeState refuse
+		h := w.bscGen.ToHeader()
+		ex := append([]byte{}, h.Extra[:32]...)
+		h.Extra = append(ex, h.Extra[len(h.Extra)-65:]...)
+		return w.bscState(h)
 	case "bsc!inv": // Validate() fails: extra data shorter than the vanity
 		h := w.bscGen.ToHeader()
 		h.Extra = h.Extra[:10]
@@ -607,7 +627,7 @@ func (w *c18World) apply(r *Rec, op string) (string, string) {
 	case "reset":
 		w.reset()
 		w.hist = []string{op}
-		return fmt.Sprintf("reset %d", w.now.UnixNano()), "ok"
+		return fmt.Sprintf("reset %d %s", w.now.UnixNano(), hxs(w.self)), "ok"
 	case "time":
 		off, _ := strconv.ParseInt(f[2], 10, 64)
 		w.now = w.baseTime(f[1]).Add(time.Duration(off) * time.Second)
@@ -674,8 +694,12 @@ func c18b(b bool) int {
 }
 
 // symbolic names: a small table, including invalid identifiers
+var c18Self = "" // set by newC18World: the hosting chain's own name
+
 func c18Name(s string) string {
 	switch s {
+	case "Nself":
+		return c18Self
 	case "N0":
 		return "chain-b"
 	case "N1":
@@ -755,6 +779,9 @@ func (w *c18World) proposal(r *Rec, f []string) (string, string) {
 	pair := kind + "." + oldTy + ">" + d.ty
 	r.Count(kind + "." + res)
 	r.Count("pair." + pair + "." + res)
+	if kind == "create" && name == w.self {
+		r.Count("create.own-name." + res)
+	}
 	// mixed proposals: the client state and the consensus state are of different client types
 	if mixKs, _ := c18TyOfKS(ks); cs != nil && ks != nil && mixKs != d.ty {
 		r.Count(kind + ".mixed-types.attempted")
@@ -783,6 +810,29 @@ func (w *c18World) proposal(r *Rec, f []string) (string, string) {
 		}
 		if kind == "create" && (!c18NameValid(name) || existed) {
 			w.find(r, "C18:create-accepted-invalid-or-existing-name", fmt.Sprintf("create accepted for name %q (valid=%v, existed=%v)", name, c18NameValid(name), existed), "ok", "error")
+		}
+		if kind == "create" && name == w.self {
+			w.find(r, "C18:create-accepted-own-chain-name", "create accepted under the chain's own name "+name, "ok", "error")
+		}
+		delete(w.tssAddr, name)
+		if tc, ok := cs.(*tsstypes.ClientState); ok {
+			w.tssAddr[name] = tc.TssAddress
+		}
+		// observation (not part of C18): does the client genesis exported now pass its own validation?
+		{
+			var gerr error
+			pan, pm := safely(func() { gs := xibcclient.ExportGenesis(w.ctx, ck); gerr = gs.Validate() })
+			if pan {
+				gerr = fmt.Errorf("panic: %s", pm)
+			}
+			if gerr != nil {
+				r.Count("genesis.invalid-after." + kind + "." + d.ty)
+				if os.Getenv("C18_DEBUG") != "" {
+					fmt.Printf("DEBUG genesis invalid after %v: %v\n", w.hist, gerr)
+				}
+			} else {
+				r.Count("genesis.valid-after." + kind)
+			}
 		}
 		storedTy := ""
 		if stored, ok := ck.GetClientState(w.ctx, name); ok {
@@ -853,12 +903,27 @@ func (w *c18World) verify(r *Rec, f []string) (string, string) {
 			member = false
 		}
 	case "tss":
-		a := cs.(*tsstypes.ClientState).TssAddress
+		// the address the client must have by construction (proposal / accepted rotations), not the stored one
+		a, tracked := w.tssAddr[n]
+		if !tracked {
+			a = cs.(*tsstypes.ClientState).TssAddress
+		}
+		want := a
 		if f[2] == "bad" {
 			a = w.addr["r1"]
 		}
+		if strings.HasPrefix(f[2], "addr:") {
+			a = w.addr["tss"+f[2][5:]]
+		}
 		proof, ptxt = []byte(a), a
 		member = true
+		var verr error
+		pan, _ := safely(func() {
+			verr = cs.VerifyPacketCommitment(w.ctx, st, w.cdc, h, proof, c18Src, c18Dst, c18Seq, w.commitVal)
+		})
+		if !pan && tracked && (verr == nil) != (a == want) {
+			w.find(r, "C18:tss-proof-verdict-differs-from-installed-address", fmt.Sprintf("TSS client must hold address %s (proposal / accepted key rotations); proof naming %s: accepted=%v", want, a, verr == nil), fmt.Sprint(verr == nil), fmt.Sprint(a == want))
+		}
 	default:
 		return "noop", "skip"
 	}
@@ -946,7 +1011,7 @@ func (w *c18World) update(r *Rec, f []string) (string, string) {
 			}
 			header = hd
 			ht := hd.GetHeight().(clienttypes.Height)
-			vbc = how == "next" && ht.GT(trusted) && !hd.GetTime().After(w.now.Add(xibctesting.MaxClockDrift))
+			vbc = how == "next" && ht.GT(trusted) && hd.GetTime().Before(w.now.Add(xibctesting.MaxClockDrift)) /* light.Verify: header time must be strictly before now + drift */
 		case "bsc":
 			num := cs.GetLatestHeight().GetRevisionHeight()
 			idx := int(num+1) - int(w.bscUpd[0].Number.Uint64())
@@ -1060,7 +1125,11 @@ func (w *c18World) update(r *Rec, f []string) (string, string) {
 
 	// ---- the real transaction path: ValidateBasic, cache context, recover --------------------------
 	before := w.dump(w.ctx)
-	authorised := found && ck.AuthRelayer(w.ctx, n, signer) && serr == nil && (ty != "tss" || cs.(*tsstypes.ClientState).TssAddress == signer)
+	tssWant, tssTracked := w.tssAddr[n]
+	if ty == "tss" && !tssTracked {
+		tssWant = cs.(*tsstypes.ClientState).TssAddress
+	}
+	authorised := found && ck.AuthRelayer(w.ctx, n, signer) && serr == nil && (ty != "tss" || tssWant == signer)
 	active := found && cs.Status(w.ctx, ck.ClientStore(w.ctx, n), w.cdc) == exported.Active
 	res := "ok"
 	var perr error
@@ -1096,6 +1165,46 @@ func (w *c18World) update(r *Rec, f []string) (string, string) {
 	}
 	if vbc && authorised && active && hvb && res != "ok" {
 		w.find(r, "C18:valid-update-rejected:"+ty+":"+res, "valid header from the authorised account for an Active "+ty+" client is not accepted: "+fmt.Sprint(perr), res, "ok")
+	}
+	if res == "ok" {
+		// the stored client state must be the one the accepted header prescribes (by construction)
+		stored, _ := ck.GetClientState(w.ctx, n)
+		okStored, want := true, ""
+		switch hd := header.(type) {
+		case *tsstypes.Header:
+			sc, ok := stored.(*tsstypes.ClientState)
+			okStored = ok && sc.TssAddress == hd.TssAddress && string(sc.Pubkey) == string(hd.Pubkey) && sc.Threshold == hd.Threshold && len(sc.PartPubkeys) == len(hd.PartPubkeys)
+			want = "tss address " + hd.TssAddress
+			if ty == "tss" {
+				w.tssAddr[n] = hd.TssAddress
+			}
+		case *bsctypes.Header:
+			sc, ok := stored.(*bsctypes.ClientState)
+			okStored = ok && string(w.cdc.MustMarshal(&sc.Header)) == string(w.cdc.MustMarshal(hd))
+			want = "bsc header " + c18H(hd.Height)
+		case *ethtypes.Header:
+			sc, ok := stored.(*ethtypes.ClientState)
+			okStored = ok && string(w.cdc.MustMarshal(&sc.Header)) == string(w.cdc.MustMarshal(hd))
+			want = "eth header " + c18H(hd.Height)
+		case *tmtypes.Header:
+			sc, ok := stored.(*tmtypes.ClientState)
+			oldL := cs.GetLatestHeight().(clienttypes.Height)
+			wantL := hd.GetHeight().(clienttypes.Height)
+			if oldL.GT(wantL) {
+				wantL = oldL
+			}
+			okStored = ok && sc.LatestHeight.EQ(wantL)
+			want = "tm latest " + c18H(wantL)
+		}
+		if okStored && ty != "tss" {
+			_, has := ck.GetClientConsensusState(w.ctx, n, header.GetHeight())
+			if !has {
+				okStored, want = false, "consensus state at "+c18H(header.GetHeight())
+			}
+		}
+		if !okStored {
+			w.find(r, "C18:accepted-update-not-stored:"+ty, "update accepted but the stored client / consensus state is not the one the header prescribes ("+want+")", fmt.Sprint(stored), want)
+		}
 	}
 	if res == "ok" && (!authorised || !active) {
 		w.find(r, "C18:update-accepted-unauthorised-or-inactive:"+ty, fmt.Sprintf("update accepted (authorised=%v active=%v)", authorised, active), "ok", "error")
@@ -1147,7 +1256,15 @@ func c18Use(name, cs string, who string) []string {
 	h := []string{"status " + name}
 	switch {
 	case strings.HasPrefix(cs, "tss"):
-		h = append(h, "verify "+name+" latest", "update "+name+" "+cs+" tss:B", "status "+name)
+		other, ot := "tssB", "B"
+		me := cs[3:4]
+		if cs == "tssB" {
+			other, ot = "tssA", "A"
+		}
+		// key rotation through the msg server; afterwards the old address can neither prove nor update
+		h = append(h, "verify "+name+" latest", "update "+name+" "+cs+" tss:"+ot, "status "+name, "verify "+name+" latest",
+			"verify "+name+" addr:"+me, "verify "+name+" addr:"+ot, "update "+name+" "+cs+" tss:"+me, "update "+name+" "+other+" tss:"+me,
+			"verify "+name+" latest", "verify "+name+" addr:"+ot)
 	case strings.HasPrefix(cs, "tm"):
 		// the time-delay boundary: 19 s after installation (tmd: too early), exactly 20 s (inclusive), then later
 		h = append(h, "verify "+name+" latest", "time now 19", "verify "+name+" latest", "time now 1", "verify "+name+" latest",
@@ -1207,6 +1324,10 @@ func c18Matrix(pow bool) [][]string {
 		out = append(out, append(append([]string{}, rel...), append([]string{"time tm 1", "create N0 tssA tss", "time eth1 1", "toggle N0 eth1p eth1"}, c18Use("N0", "eth1p", "r0")...)...))
 		out = append(out, append(append([]string{}, rel...), append([]string{"time eth0 1", "create N0 eth0p eth0", "time eth1 1", "upgrade N0 eth1p eth1"}, c18Use("N0", "eth1p", "r0")...)...))
 	}
+	for _, a := range c18Types { // a client under the chain's own name is never installed
+		ca, ka := c18CSOf(a, false)
+		out = append(out, append(append([]string{}, rel...), "time "+c18TimeFor(ca)+" 1", "create Nself "+ca+" "+ka, "status Nself", "upgrade Nself "+ca+" "+ka, "toggle Nself "+ca+" "+ka))
+	}
 	for _, a := range c18Types {
 		ca, ka := c18CSOf(a, false)
 		pre := []string{"reset", "relayer r0 N0 N1", "relayer tssA N0", "relayer tssB N0", "time " + c18TimeFor(ca) + " 1", "create N0 " + ca + " " + ka}
@@ -1245,9 +1366,9 @@ func c18Matrix(pow bool) [][]string {
 func (w *c18World) randomHistory(r *Rec) []string {
 	rng := r.Rng
 	names := []string{"N0", "N0", "N0", "N1", "N2", "Nmin", "Nmax"}
-	bad := []string{"Nshort", "Nslash", "Nlong", "Nspace", "Nblank"}
+	bad := []string{"Nshort", "Nslash", "Nlong", "Nspace", "Nblank", "Nself", "Nself"}
 	goodCS := []string{"tm", "tmd", "bsc0", "bsc1", "eth0", "eth1", "tssA", "tssB"}
-	badCS := []string{"tm!inv", "bsc!epoch", "bsc!seal", "bsc!inv", "eth!inv", "tss!inv", "nil"}
+	badCS := []string{"tm!inv", "bsc!epoch", "bsc!seal", "bsc!inv", "bsc!h0", "bsc!noval", "eth!inv", "eth!h0", "tss!inv", "nil"}
 	allKS := []string{"tm", "bsc0", "bsc1", "eth0", "eth1", "tss", "nil"}
 	ksFor := func(cs string) string {
 		switch {
@@ -1351,7 +1472,7 @@ func (w *c18World) randomHistory(r *Rec) []string {
 		case x < 15:
 			h = append(h, "status "+name)
 		case x < 18:
-			h = append(h, "verify "+name+" "+[]string{"latest", "latest", "bad", "hi", "nocons"}[rng.Intn(5)])
+			h = append(h, "verify "+name+" "+[]string{"latest", "latest", "bad", "hi", "nocons", "addr:A", "addr:B"}[rng.Intn(7)])
 		case x < 19:
 			k := rng.Intn(4)
 			var ns []string
